@@ -36,7 +36,8 @@ RULE = (
     "the 93 rationals p/q with |p| <= 12, q <= 6 (integers as Python int, and again with integers as sympy "
     "Integer), (b) seeded pairs with |p| <= 10^6, q <= 10^4 in int/int, int/rational, rational/int, "
     "rational/rational mixes (boundary-heavy: equal, negated, reciprocal, exact multiples, common factors, "
-    "0, +-1); (c) seeded expression trees of depth <= 5 over + - * / and field-identity templates, executed as "
+    "0, +-1), (b2) every ordered pair (both orders, both integer types) of ~90 left values with ~260 magnitude "
+    "boundaries: +-(2^k, 2^k+-1) up to 2^19, +-(10^k, 10^k+-1), powers of 3 and 7, rationals over 2^k (k <= 13) and 10^k; (c) seeded expression trees of depth <= 5 over + - * / and field-identity templates, executed as "
     "whole Vyxal programs with literals (negatives built as `0 n-` or `nN`), compared with Fraction. "
     "evaluations counts element executions observed (one per operation, one per tree program). "
     "distinct_nontrivial counts distinct typed operand pairs (a, b) other than pairs drawn from {0, 1} "
@@ -56,6 +57,7 @@ MIN_COUNTERS = {
     "tree_programs": {"quick": 600, "thorough": 8000},
     "tree_division_nodes": {"quick": 1400, "thorough": 17000},
     "fixed_hostile_trees": 30,
+    "boundary_pairs": {"quick": 20000, "thorough": 20000},
 }
 UNIT_TIMEOUT = 1500
 MAX_WITNESSES_PER_UNIT = 20
@@ -129,6 +131,32 @@ FIXED_PAIRS = [
 
 def small_space():
     return sorted({Fraction(p, q) for p in range(-12, 13) for q in range(1, 7)})
+
+
+def boundary_values():
+    """Magnitude boundaries inside the quantifier (|p| <= 10^6, q <= 10^4): powers of two and ten
+    and their neighbours, and rationals whose denominator is a power of two or ten."""
+    ints = set()
+    for base, kmax in ((2, 19), (10, 6), (3, 12), (7, 7)):
+        for k in range(0, kmax + 1):
+            for d in ((-1, 0, 1) if base in (2, 10) else (0,)):
+                v = base ** k + d
+                if 0 < v <= 10 ** 6:
+                    ints.update((v, -v))
+    R = {Fraction(v) for v in ints}
+    rats = set()
+    for k in range(1, 14):
+        for p in (1, -1, 3, 5, -7, 999999):
+            rats.add(Fraction(p, 2 ** k))
+    for k in range(1, 5):
+        for p in (1, -3, 7, 999999):
+            rats.add(Fraction(p, 10 ** k))
+    rats.update(Fraction(p, q) for p in (1, -2, 1000000) for q in (3, 7, 9973, 9999, 10 ** 4, 8191, 6561))
+    lrats = {Fraction(p, 2 ** k) for p in (1, 3, -5) for k in (1, 4, 10, 12, 13)} | {
+        Fraction(1, 3), Fraction(-2, 7), Fraction(7, 1000), Fraction(999999, 10 ** 4), Fraction(1, 9973)}
+    L = sorted({Fraction(x) for x in (0, 1, -1, 2, 3, 5, -7, 12, 100, 1024, 2048, 4096, 65536, 524288, 10 ** 6,
+                                      999983)} | lrats)
+    return L, sorted(R | rats)
 
 
 def in_small_space(f):
@@ -339,6 +367,8 @@ def units(tier, seed):
     for k in range(0, n_trees, per_t):
         u.append({"kind": "tree", "seed": seed, "i": k // per_t, "n": min(per_t, n_trees - k)})
     u.append({"kind": "cases", "fixed": True, "cases": [[op, a, b] for a, b in FIXED_PAIRS for op in OPS]})
+    for i in range(len(boundary_values()[0])):
+        u.append({"kind": "boundary", "lhs": i})
     nfixed = len(fixed_trees())
     for k in range(0, nfixed, 30):
         u.append({"kind": "fixed_trees", "lo": k, "hi": min(nfixed, k + 30)})
@@ -728,6 +758,23 @@ def run_unit(unit):
                     acc.count("exhaustive_pairs")
                     if not (a in (0, 1) and b in (0, 1)):
                         acc.res["distinct"] += 1
+    elif k == "boundary":
+        L, R = boundary_values()
+        a = L[unit["lhs"]]
+        for b in R:
+            for x, y in ((a, b), (b, a)):
+                for variant in ("py", "sym"):
+                    if variant == "sym" and x.denominator != 1 and y.denominator != 1:
+                        continue
+                    sa = frac_spec(x, sym_int=(variant == "sym"))
+                    sb = frac_spec(y, sym_int=(variant == "sym"))
+                    before = acc.res["evals"]
+                    for op in OPS:
+                        check_op(acc, op, sa, sb)
+                    if acc.res["evals"] > before:
+                        acc.count("boundary_pairs")
+                        if not (in_small_space(x) and in_small_space(y)):
+                            acc.res["keys"].append(short_hash(["pair", sa, sb]))
     elif k == "rand":
         r = random.Random(f"C07-rand-{unit['seed']}-{unit['i']}")
         for j in range(unit["n"]):
